@@ -407,7 +407,7 @@ class Circuit:
         ios = set(impl.io_nodes)
         for n in impl.nodes:  # add all nodes to main circuit
             if n not in ios:
-                if n != designated_cell:
+                if n is not designated_cell:
                     node_map[n] = Node(self, f'{node.name}~{n.name}', n.kind)
             elif len(n.outs) > 0 and len(n.ins) > 0:  # output is also read by impl. circuit, need to add a fork.
                 node_map[n] = Node(self, f'{node.name}~{n.name}')
